@@ -1,4 +1,4 @@
 """C05 — a task configuration is executed at most once per successful result."""
-FUNCS = ["Scheduler.aio_registerJob", "Scheduler.aio_submit", "Scheduler.aio_start", "TaskRunner.run"]
+FUNCS = ["Scheduler.submit", "Scheduler.aio_registerJob", "Scheduler.aio_submit", "Scheduler.aio_start", "TaskRunner.run"]
 LEVEL = "proof"
 TRUSTED = []
